@@ -161,7 +161,15 @@ pub fn world_b_general(property: &str, scenario: &str, seed: u64, run: u64, sc: 
         }
     }
     plan.push(0, 0, Op::Create { ep: topo.server });
-    let latency = sample_latency(&mut r);
+    let mut latency = sample_latency(&mut r);
+    if sc.ideal {
+        // the ideal network may be a slow one: one-way delays of 0.4-3 s in some runs (the
+        // handshake then takes longer than the 2 s after which a request is repeated)
+        let mut rl = Rng::keyed(&[seed, run, 0x1a7e_9c]);
+        if rl.chance(0.15) {
+            latency = rl.range(400_000, 3_000_000);
+        }
+    }
     let mut t = 0;
     let phases = r.range(1, 3);
     for p in 0..phases {
@@ -504,6 +512,19 @@ pub fn world_b_handshake(property: &str, scenario: &str, seed: u64, run: u64, th
         let t = r.range(0, horizon / 2);
         let bytes = enc_syn(*r.pick(&[0u8, 2, 4, 255]), r.u32(), 1_000_000, 1000, 1_000_000, 1472);
         plan.push(t, 0x8000_0002, Op::Inject { to: 0, from: raw, bytes, twin: false });
+    }
+    if !clean {
+        // some clients hang up the moment they are connected (drawn from a generator of its own):
+        // the server may find the handshake's last leg and the disconnect request in one step
+        let mut r = Rng::keyed(&[seed, run, 0x4a6_d15c]);
+        for &c in topo.clients.iter() {
+            if !r.chance(0.2) {
+                continue;
+            }
+            let Some(t_create) = plan.timeline.iter().find(|t| matches!(t.op, Op::Create { ep } if ep == c)).map(|t| t.t_us) else { continue };
+            let t = t_create + 2 * latency + r.below(2 * latency + 150_000);
+            plan.push(t, r.u32() | 1, if r.chance(0.7) { Op::DisconnectNow { ep: c, to: None } } else { Op::Disconnect { ep: c, to: None } });
+        }
     }
     plan.adversary = if clean { String::new() } else { "handshake_forger".into() };
     plan.params.insert("short_ch".into(), 63.0);
@@ -1267,6 +1288,10 @@ pub fn world_b_spoof_long(property: &str, scenario: &str, seed: u64, run: u64, _
             // a trickle of small frames that mean nothing before the handshake has completed
             let kind = r.below(4);
             let mut t = t0 + r.range(100_000, 19_000_000);
+            // (a keyed draw of its own: several of them inside every 2 s retransmission interval,
+            // or one every few seconds)
+            let dense = key(&[seed, run, k as u64, 0xde25e]) % 5 < 2;
+            let dense_gap = 300_000 + key(&[seed, run, k as u64, 0xde25f]) % 1_690_000;
             while t < horizon {
                 let bytes = match kind {
                     0 => enc_data(r.u32(), false, &[]),
@@ -1279,7 +1304,7 @@ pub fn world_b_spoof_long(property: &str, scenario: &str, seed: u64, run: u64, _
                     },
                 };
                 plan.push(t, 0x8000_0002, Op::Inject { to: 0, from: raw, bytes, twin: false });
-                t += r.range(3_000_000, 19_000_000);
+                t += if dense { r.range(dense_gap * 9 / 10, dense_gap) } else { r.range(3_000_000, 19_000_000) };
             }
         }
         plan.push(500_000, 5, Op::StepEvery { ep: raw, period_us: 1_000_000, until_us: horizon });
@@ -1723,6 +1748,16 @@ pub fn world_b_one_way(property: &str, scenario: &str, seed: u64, run: u64, thor
         side.keepalive = true;
         side.keepalive_interval_ms = r2.log_range(100, min_cfg_to / 4);
     }
+    let mut stall_us = 0;
+    if idle_gap_us == 0 && r2.chance(0.25) {
+        let t_short = r2.log_range(1_500, 8_000);
+        let (q, l) = if client_streams { (&mut scfg, &mut ccfg) } else { (&mut ccfg, &mut scfg) };
+        l.active_timeout_ms = t_short;
+        q.active_timeout_ms = 3 * t_short;
+        q.keepalive = true;
+        q.keepalive_interval_ms = r2.log_range(100, t_short / 4);
+        stall_us = t_short * r2.range(1200, 1700);
+    }
     let cc = ccfg.clone();
     let topo = topology(&mut plan, &mut r, 1, 0, scfg, 64, 32, move |_, _| cc.clone());
     let c = topo.clients[0];
@@ -1768,6 +1803,22 @@ pub fn world_b_one_way(property: &str, scenario: &str, seed: u64, run: u64, thor
         plan.push(t, 0x4000_0000 + tag, Op::Send { ep: from, to, ch: (tag % 3) as u8, mode, len, tag });
         tag += 1;
         t += if busy { r.log_range(3_000, max_gap.min(80_000)) } else { r.log_range(50_000, max_gap) };
+    }
+    // the streaming application is held up once for longer than its own silence timeout (but
+    // well inside its peer's, which is three times as long in these runs) while its peer's
+    // keepalive frames go on arriving: they lie in its socket when it takes its next turn, so its
+    // peer has not been silent and the connection goes on
+    if stall_us > 0 {
+        let quiet_ep = if client_streams { c } else { 0 };
+        let t_stall = t0 + r2.below(stream_us.max(1));
+        for t in plan.timeline.iter_mut() {
+            if let Op::StepEvery { ep, until_us, .. } = &mut t.op {
+                if *ep == quiet_ep {
+                    *until_us = t_stall;
+                }
+            }
+        }
+        plan.push(t_stall + stall_us, 3, Op::StepEvery { ep: quiet_ep, period_us: r2.range(2_000, 100_000), until_us: horizon });
     }
     plan.params.insert("expect_live".into(), 1.0);
     plan.params.insert("connection_must_last".into(), 1.0);
@@ -1845,7 +1896,26 @@ pub fn world_b_retry(property: &str, scenario: &str, seed: u64, run: u64, _thoro
             let t_b = shift + k * 2_000_000 + if r.chance(0.4) { r.range(200_000, 1_500_000) } else { r.range(2_000_000, 6_000_000) };
             let mut b = clean_rule(latency);
             b.blackout = true;
-            plan.push(t_b, 3, Op::Link { from: None, to: None, rule: b });
+            // sometimes the outage is one-way: nothing of the caller reaches its peer, while the
+            // peer - which goes on sending data - is still heard (drawn from a generator of its own)
+            let mut r3 = Rng::keyed(&[seed, run, 0x1_3a7]);
+            let one_way = r3.chance(0.4);
+            let caller_is_client = r3.chance(0.5);
+            if one_way {
+                let (from, to) = if caller_is_client { (c, 0usize) } else { (0usize, c) };
+                plan.push(t_b, 3, Op::Link { from: Some(from), to: Some(to), rule: b });
+                let (peer, peer_to) = if caller_is_client { (0usize, Some(c)) } else { (c, None) };
+                let mut t = t_b.saturating_sub(1_000_000);
+                let mut tag = 700_000u32;
+                let gap = r3.range(5_000, 150_000);
+                while t < horizon && tag < 701_500 {
+                    plan.push(t, 0x4000_0000 + tag, Op::Send { ep: peer, to: peer_to, ch: 0, mode: r3.below(4) as u8, len: r3.range(12, 1200) as u32, tag });
+                    tag += 1;
+                    t += gap;
+                }
+            } else {
+                plan.push(t_b, 3, Op::Link { from: None, to: None, rule: b });
+            }
             let mut t_call = t_b + if t_b < shift + k * 2_000_000 + 2_000_000 { r.below(300_000) } else { r.below(3_000_000) };
             // the silence timeout of either side may be shorter than the 22 s of the attempt: a
             // closing endpoint has its own budget, whatever its silence timer said before
@@ -1867,7 +1937,8 @@ pub fn world_b_retry(property: &str, scenario: &str, seed: u64, run: u64, _thoro
                     }
                 }
             }
-            if r.chance(0.5) {
+            let client_calls = if one_way { r.chance(0.5); caller_is_client } else { r.chance(0.5) };
+            if client_calls {
                 plan.push(t_call, 0x6000_0000, Op::DisconnectNow { ep: c, to: None });
             } else {
                 plan.push(t_call, 0x6000_0000, Op::DisconnectNow { ep: 0, to: Some(c) });
